@@ -286,6 +286,7 @@ def run(ctx):
     # controller assignment, failed loads, save+load, note.mod) replayed through the public API without state injection
     from .. import system
     system.exhaustive(ctx, q)
+    system.graph_replay(ctx, q)          # every 16th (thorough: 4th) transition of the composed model, with state injection
     system.simulate_and_replay(ctx, 400 if q else 4000, 14 if q else 20)
     rnd = ctx.rnd
     traces = []
